@@ -23,7 +23,7 @@ N = {"quick": 600, "thorough": 9500}
 
 
 def plan(tier, seed):
-    return [{"n": N[tier]} for _ in range(16)] + [{"kind": "threads", "rounds": 3 if tier == "quick" else 40}]
+    return [{"n": N[tier]} for _ in range(16)] + [{"kind": "threads", "rounds": 3 if tier == "quick" else 40}] + [{"n": N[tier] // 2, "python_flags": ["-bb"]}]
 
 
 def run(shard, ctx):
